@@ -95,3 +95,14 @@ mut("c02-name-budget-removed", "C02", "msg.go", "			if budget <= 0 {\n				return
 mut("c02-svcb-alpn-overflow", "C02", "svcb.go", "		if i+length > len(b) {\n			return errors.New(\"bad svcbalpn: alpn array overflowing\")\n		}", "", "alpn id length not checked")
 mut("c02-apl-afdlen", "C02", "msg_helpers.go", "	if off+afdlen > len(msg) {\n		return APLPrefix{}, len(msg), &Error{err: \"overflow unpacking APL address\"}\n	}", "", "APL address length not checked against the RDATA (EQUIVALENT: the over-read makes off != end, so the record is still rejected with bad rdlength)")
 mut("c02-string-overflow", "C02", "msg_helpers.go", "	l := int(msg[off])\n	off++\n	if off+l > len(msg) {\n		return \"\", off, &Error{err: \"overflow unpacking txt\"}\n	}\n	var s strings.Builder", "	l := int(msg[off])\n	off++\n	var s strings.Builder", "character-string length not checked")
+
+# ---- C05
+mut("c05-txt-quote-not-escaped", "C05", "types.go", "	case b == '\"' || b == '\\\\':\n		s.WriteByte('\\\\')\n		s.WriteByte(b)\n	case b < ' ' || b > '~':\n		s.WriteString(escapeByte(b))\n	default:\n		s.WriteByte(b)\n	}\n}", "	case b == '\\\\':\n		s.WriteByte('\\\\')\n		s.WriteByte(b)\n	case b < ' ' || b > '~':\n		s.WriteString(escapeByte(b))\n	default:\n		s.WriteByte(b)\n	}\n}", "a double quote inside a TXT string is printed unescaped")
+mut("c05-rfc3597-no-length-check", "C05", "scan_rr.go", "	if int(rdlength)*2 != len(s) {\n		return &ParseError{err: \"bad RFC3597 Rdata\", lex: l}\n	}\n	rr.Rdata = s", "	if int(rdlength)*2 < len(s) {\n		return &ParseError{err: \"bad RFC3597 Rdata\", lex: l}\n	}\n	rr.Rdata = s", "\\# length not compared with the hex data")
+mut("c05-classtoint-offset", "C05", "scan.go", "func classToInt(token string) (uint16, bool) {\n	offset := 5", "func classToInt(token string) (uint16, bool) {\n	offset := 6", "CLASSnnn drops its first digit")
+mut("c05-timetostring-format", "C05", "types.go", "	return ti.Format(\"20060102150405\")", "	return ti.Format(\"20060102150504\")", "RRSIG timestamps printed with minutes and seconds swapped")
+mut("c05-sprintname-semicolon", "C05", "types.go", "	case '.', ' ', '\\'', '@', ';', '(', ')', '\"', '\\\\':\n		return true", "	case '.', ' ', '\\'', '@', '(', ')', '\"', '\\\\':\n		return true", "semicolon in a name no longer escaped")
+mut("c05-svcb-alpn-comma", "C05", "svcb.go", "			case ',':\n				str.WriteString(`\\\\\\044`)", "			case ',':\n				str.WriteString(`,`)", "comma inside an alpn id printed bare")
+mut("c05-nsec3-salt-dash", "C05", "types.go", "func saltToString(s string) string {\n	if s == \"\" {\n		return \"-\"\n	}", "func saltToString(s string) string {\n	if s == \"\" {\n		return \"\"\n	}", "empty NSEC3 salt printed as nothing")
+mut("c05-caa-flag-order", "C05", "types.go", "	return rr.Hdr.String() + strconv.Itoa(int(rr.Flag)) + \" \" + rr.Tag + \" \" + sprintTxtOctet(rr.Value)", "	return rr.Hdr.String() + strconv.Itoa(int(rr.Flag)&127) + \" \" + rr.Tag + \" \" + sprintTxtOctet(rr.Value)", "CAA critical flag bit lost in the text form")
+mut("c05-octet-escape-ddd", "C05", "types.go", "func sprintTxtOctet(s string) string {", "func sprintTxtOctet(s string) string {\n	s = strings.ReplaceAll(s, \"\\\\009\", \" \")", "tab in CAA/URI text printed raw")
